@@ -25,9 +25,27 @@ def main():
         return 2
     try:
         return mod.main(tier, replay=a.replay)
-    except Exception:
-        # a crash of the machinery is not evidence of anything: fail loudly but without a VIOLATION line
+    except Exception as ex:
         traceback.print_exc()
+        frames = traceback.extract_tb(ex.__traceback__)
+        repo = str(common.REPO.resolve())
+        impl_frames = [f for f in frames if os.path.realpath(f.filename).startswith(repo)]
+        if impl_frames:
+            # The exception was raised inside the implementation under test while the harness was using its public API the
+            # way it does on the unchanged tree (where this never happens): the behaviour changed and the correspondence is
+            # broken.  Reported as a violation naming the call that now raises; no minimised input.
+            run = common.Run(pid, tier)
+            run.cov["rule"] = "run aborted: the implementation raised where the unchanged tree does not"
+            run.cov["evaluations"], run.distinct = 1, {"a", "b"}
+            run.cov["explanation"] = "the check could not complete: the implementation raised an exception inside a call that succeeds on the unchanged tree"
+            run.violation({"kind": "implementation_raised", "broken": "correspondence: the implementation raised during a harness run",
+                           "exception": f"{type(ex).__name__}: {str(ex)[:300]}",
+                           "where": [f"{f.filename}:{f.lineno} in {f.name}" for f in impl_frames[-4:]],
+                           "harness_call": [f"{f.filename}:{f.lineno} in {f.name}" for f in frames if "/verif/harness" in f.filename][-2:]},
+                          no_input=True)
+            run.finish("other" if not run.cov.get("obligations") else "proof")
+            return 1
+        # a crash of the machinery itself is not evidence of anything: fail loudly but without a VIOLATION line
         print(f"CHECK-ERROR property={pid}: the check itself crashed", flush=True)
         return 3
 
